@@ -101,6 +101,7 @@ type caseRow struct {
 	Idx    int        `json:"idx"`
 	Pred   prediction `json:"pred"`
 	Rseed  *int64     `json:"rseed,omitempty"`
+	Repeat int        `json:"repeat,omitempty"` // the model has a race that decides the verdict: run the case several times
 }
 
 func has(set []bool, v bool) bool {
@@ -543,7 +544,7 @@ func (r *caseRun) run() (undecided string) {
 		}
 		return ""
 	}
-	expectHang := !has(r.c.Pred.Ret, true)
+	expectHang := has(r.c.Pred.Ret, false) // a hang is possible: look for the evidence early (it is needed either way)
 	if endsByPeer(r.c.Script) {
 		// the connection has ended: the call must return without any help from Close
 		if why := setCall(r.awaitReturn(ret, gid, r.needle, expectHang, "the call")); why != "" {
@@ -643,7 +644,7 @@ func (r *caseRun) run() (undecided string) {
 
 	// ---- one more call on the closed connection
 	ret2, gid2 := r.startCall()
-	switch v, res := r.awaitReturn(ret2, gid2, r.needle, !has(r.c.Pred.Ret2, true), "the second call"); v {
+	switch v, res := r.awaitReturn(ret2, gid2, r.needle, has(r.c.Pred.Ret2, false), "the second call"); v {
 	case returned:
 		r.obs.Ret2 = "return"
 		if res.panic != "" {
@@ -692,12 +693,20 @@ func sameSet(a, b []string) bool {
 	return true
 }
 
-func compare(rep *vh.Reporter, c *caseRow, o *observation, replay map[string]any) int {
+func compare(rep *vh.Reporter, c *caseRow, o *observation, replay map[string]any, reported map[string]bool) int {
 	key := caseKey(c)
 	n := 0
 	dis := func(suffix, desc string) {
+		if reported[suffix] {
+			return // the same verdict in an earlier run of this case
+		}
+		reported[suffix] = true
 		n++
-		rep.Disagree(key+":"+suffix, desc+"; "+strings.Join(o.Notes, "; "), replay)
+		notes := o.Notes
+		if len(notes) > 6 {
+			notes = notes[:6]
+		}
+		rep.Disagree(key+":"+suffix, desc+"; "+strings.Join(notes, "; "), replay)
 	}
 	retAspect := func(name, obs string, allowed []bool) {
 		switch obs {
@@ -823,48 +832,63 @@ func main() {
 		if api == nil {
 			rep.Dead("case for an API that is not in the table: %s", c.Api)
 		}
-		cs := int64(hs.Mix(seed, c.Api, scriptName(c.Script)) >> 1)
+		cs0 := int64(hs.Mix(seed, c.Api, scriptName(c.Script)) >> 1)
+		runs := 1
 		if c.Rseed != nil {
-			cs = *c.Rseed
+			cs0 = *c.Rseed
+		}
+		if c.Repeat > 1 {
+			runs = c.Repeat
 		}
 		key := caseKey(c)
-		var run *caseRun
-		var why string
-		for attempt := 0; attempt < 3; attempt++ {
-			run = &caseRun{c: c, api: api, fx: fx, seed: uint64(cs)}
-			rep.Guard(key, map[string]any{"row": c, "rseed": cs}, func() { why = run.run() })
-			if why == "" {
-				break
+		reported := map[string]bool{}
+		for k := 0; k < runs; k++ {
+			cs := cs0 + int64(k)*7919
+			var run *caseRun
+			var why string
+			for attempt := 0; attempt < 3; attempt++ {
+				run = &caseRun{c: c, api: api, fx: fx, seed: uint64(cs)}
+				rep.Guard(key, map[string]any{"row": c, "rseed": cs}, func() { why = run.run() })
+				if why == "" {
+					break
+				}
+				fmt.Fprintf(os.Stderr, "c15: %s undecided (attempt %d): %s\n", key, attempt+1, why)
+				time.Sleep(time.Second)
 			}
-			fmt.Fprintf(os.Stderr, "c15: %s undecided (attempt %d): %s\n", key, attempt+1, why)
-			time.Sleep(time.Second)
-		}
-		if why != "" {
-			rep.Dead("%s could not be decided after 3 attempts: %s", key, why)
-		}
-		rep.Case(key, true)
-		o := &run.obs
-		c.Rseed = &cs
-		replay := map[string]any{"row": c, "rseed": cs, "verif_seed": seed, "observed": o}
-		compare(rep, c, o, replay)
-		if o.Ret == "hang" || o.Ret2 == "hang" {
-			hangsSeen++
-		}
-		if len(o.Leak) > 0 {
-			leaks++
-		}
-		if o.Ms > maxMs {
-			maxMs = o.Ms
-		}
-		byObs[fmt.Sprintf("call=%s call2=%s close=%v errchan=%v leak=%d", o.Ret, o.Ret2, o.CloseRet, o.ErrClosed, len(o.Leak))]++
-		if (c.Idx+int(seed))%41 == 0 {
-			rep.Sample(map[string]any{"case": key, "observed": fmt.Sprintf("call=%s (%s) call2=%s close=%v errchan_closed=%v leak=%v errors=%v",
-				o.Ret, o.RetVal, o.Ret2, o.CloseRet, o.ErrClosed, o.Leak, o.Errors), "predicted": c.Pred})
+			if why != "" {
+				rep.Dead("%s could not be decided after 3 attempts: %s", key, why)
+			}
+			rep.Case(key, true)
+			o := &run.obs
+			rc := *c
+			rc.Rseed = &cs
+			rc.Repeat = 0
+			replay := map[string]any{"row": rc, "rseed": cs, "verif_seed": seed, "observed": o}
+			compare(rep, c, o, replay, reported)
+			if o.Ret == "hang" || o.Ret2 == "hang" {
+				hangsSeen++
+			}
+			if len(o.Leak) > 0 {
+				leaks++
+			}
+			if o.Ms > maxMs {
+				maxMs = o.Ms
+			}
+			if os.Getenv("VERIF_C15_VERBOSE") != "" {
+				fmt.Fprintf(os.Stderr, "c15: %s: %dms call=%s(%s) call2=%s close=%v errchan=%v leak=%v notes=%v\n", key, o.Ms, o.Ret, o.RetVal, o.Ret2, o.CloseRet, o.ErrClosed, o.Leak, o.Notes)
+			}
+			byObs[fmt.Sprintf("call=%s call2=%s close=%v errchan=%v leak=%d", o.Ret, o.Ret2, o.CloseRet, o.ErrClosed, len(o.Leak))]++
+			if k == 0 && (c.Idx+int(seed))%41 == 0 {
+				rep.Sample(map[string]any{"case": key, "observed": fmt.Sprintf("call=%s (%s) call2=%s close=%v errchan_closed=%v leak=%v errors=%v",
+					o.Ret, o.RetVal, o.Ret2, o.CloseRet, o.ErrClosed, o.Leak, o.Errors), "predicted": c.Pred})
+			}
 		}
 	}
 	rep.Extra["c15_cases_with_a_hanging_call"] = hangsSeen
 	rep.Extra["c15_cases_with_leftover_goroutines"] = leaks
-	rep.Extra["c15_slowest_case_ms"] = maxMs
-	rep.Extra["c15_observations"] = byObs
+	_ = maxMs
+	for k, n := range byObs {
+		rep.Extra["c15_observed: "+k] = n // numbers, so that the shards add up
+	}
 	rep.Finish()
 }
